@@ -2,22 +2,29 @@
   C16 — cursors declared FOR a prepared statement: the replace values an OPEN sees.
 
   "OPEN evaluates the cursor's query once …": for a cursor FOR a prepared statement the query has placeholders, and
-  WHICH rows the snapshot holds is decided by the values the placeholders are read from.  csvq keeps the values of
-  every `EXECUTE … USING` in the context (a stack of frames); `Cursor.Open` pushes a frame of its own built from the
-  USING list of the OPEN statement — an EMPTY one when there is no USING clause.  Proved here, for every stack of
-  surrounding frames, every table, every statement shape of Model/CursorStmt and every nesting of EXECUTE / function
-  call / SOURCE:
+  WHICH rows the snapshot holds is decided by the values the placeholders are read from.  csvq keeps the value
+  EXPRESSIONS of every `EXECUTE … USING` in the context (a stack of frames); `Cursor.Open` pushes a frame of its own
+  built from the USING list of the OPEN statement — an EMPTY one when there is no USING clause.  Since /repo 6dd3cc3
+  (finding F118) a frame records the context it was WRITTEN in and its expressions are evaluated THERE: a placeholder
+  in a USING list is one of the surrounding statement.  Proved here, for every context, table, statement shape of
+  Model/CursorStmt and every nesting of EXECUTE / function call / SOURCE:
 
-    * open_sees_only_its_own_values, open_on_stack_sees_only_its_own_values, program_independent_of_outer_frames
+    * open_sees_only_its_own_values (exact form: the OPEN depends on its own USING list and, through the placeholders
+      written IN that list, on what the context of the statement containing the OPEN answers for them — nothing else),
+      open_with_literal_values_sees_no_frame, open_on_stack_sees_only_its_own_values,
+      using_placeholder_reads_surrounding_frame, own_frame_never_read_for_its_own_expressions
+    * program_depends_on_context_only_through_placeholder_values, closed_program_independent_of_outer_frames
+    * placeholder_eval_terminates (the fuel-bounded evaluation in the shape of the Go code, over recorded frames, never
+      runs out with `size e + weight c` nested calls and equals the structural evaluation), eval_fuel_monotone,
+      prepared_contexts_are_recorded; old_lazy_evaluation_loops (the shape before the fix: `USING ?` reads itself, no fuel suffices)
     * open_without_values_refused_iff_placeholder  (and the cursor stays closed)
     * failed_open_leaves_cursor_closed, failed_open_leaves_stack_unchanged
-    * open_with_values_is_open_on_selected_rows  (the link to `Cursor.step (.open n rows)` and so to every theorem
-      of Props/C16.lean about the walk over the snapshot)
+    * open_with_values_is_open_on_selected_rows  (the link to `Cursor.step (.open n rows)`)
     * positional_value_is_ordinal_minus_one, named_value_last_entry_wins
-    * gen_prepared_context_always_shadows, gen_prepared_context_sites, gen_replace_value_key_uses,
-      gen_eval_placeholder_skeleton, gen_new_replace_values_skeleton over the REGENERATED Gen/CursorPrepCtx.lean
-    * conditional_wrap_leaks_outer_values: the variant that returns the context unchanged for an empty USING list
-      (seeded change C16-m25) is not the model's function, with the concrete leak.
+    * gen_prepared_context_always_shadows (… and records), gen_prepared_context_sites, gen_replace_value_key_uses,
+      gen_placeholder_value_evaluated_in_recorded_context, gen_eval_placeholder_skeleton, gen_new_replace_values_skeleton
+      over the REGENERATED Gen/CursorPrepCtx.lean
+    * conditional_wrap_leaks_outer_values (seeded change C16-m25), unrecorded_wrap_is_not_the_model (reverse seed C19-r118)
 -/
 import Csvq.Model.CursorStmt
 import Csvq.Lemmas.CursorStmt
@@ -25,85 +32,236 @@ import Csvq.Gen.CursorPrepCtx
 namespace Csvq.C16Stmt
 open Csvq Csvq.Cursor Csvq.CursorStmt
 
-/-! ## only the OPEN's own frame -/
+/-! ## what an OPEN can read -/
 
-/-- for every two stacks of surrounding frames: the OPEN does the same -/
-theorem open_sees_only_its_own_values (ctx ctx' : Ctx) (s : Scope String) (n : String) (c : Cond) (table : List Row)
-    (us : List RV) :
-    openStmt ctx s n c table us = openStmt ctx' s n c table us := by
-  simp only [openStmt, ctxForPrepared]
-  rw [evalPlaceholder_cons_fun _ ctx, evalPlaceholder_cons_fun _ ctx']
-
-/-- … and what it does is the evaluation under `ownLookup us`, which mentions no surrounding frame at all -/
+/-- the OPEN is the evaluation under `ownLookup`: the expression its OWN list gives for a placeholder, evaluated with
+    what the context of the statement that contains the OPEN answers -/
 theorem open_reads_own_lookup (ctx : Ctx) (s : Scope String) (n : String) (c : Cond) (table : List Row) (us : List RV) :
     openStmt ctx s n c table us =
       (match lookup s (key n) with
        | none => (s, .res (.err .undeclared))
        | some (.opened _ _ _) => (s, .res (.err .alreadyOpen))
        | some .closed =>
-         match selectRows (ownLookup us) c table with
+         match selectRows (ownLookup (evalPlaceholder ctx) us) c table with
          | none => (s, .notSpecified)
          | some rows => (update s (key n) (.opened rows (-1) false), .res .ok)) := by
-  have e := evalPlaceholder_cons_fun (newReplaceValues us) ctx
-  simp only [openStmt, ctxForPrepared, ownLookup, e]
+  have e := evalPlaceholder_prepared ctx us
+  simp only [openStmt, e]
   rfl
 
+theorem ownLookup_congr (lk lk' : Holder → Option Int) (us : List RV)
+    (h : ∀ r ∈ us, evalWith lk r.value = evalWith lk' r.value) : ownLookup lk us = ownLookup lk' us := by
+  funext x
+  simp only [ownLookup]
+  cases hi : frameIndex (newReplaceValues us) x with
+  | none => rfl
+  | some e =>
+    have hm : e ∈ (newReplaceValues us).values := by
+      cases x with
+      | named nm =>
+        simp only [frameIndex] at hi
+        cases ha : assoc (newReplaceValues us).names nm with
+        | none => simp [ha] at hi
+        | some i => simp [ha] at hi; exact List.mem_of_getElem? hi
+      | pos o =>
+        cases o with
+        | zero => simp [frameIndex] at hi
+        | succ i => simp only [frameIndex] at hi; exact List.mem_of_getElem? hi
+    rw [newReplaceValues_values] at hm
+    obtain ⟨r, hr, rfl⟩ := List.mem_map.mp hm
+    simp [h r hr]
+
+/-- EXACT FORM: two contexts that give the expressions of the OPEN's own USING list the same values make the OPEN do
+    the same — the surrounding frames are reachable ONLY through placeholders written in that list -/
+theorem open_sees_only_its_own_values (ctx ctx' : Ctx) (s : Scope String) (n : String) (c : Cond) (table : List Row)
+    (us : List RV)
+    (h : ∀ r ∈ us, evalWith (evalPlaceholder ctx) r.value = evalWith (evalPlaceholder ctx') r.value) :
+    openStmt ctx s n c table us = openStmt ctx' s n c table us := by
+  rw [open_reads_own_lookup, open_reads_own_lookup, ownLookup_congr _ _ us h]
+
+/-- a USING list of literals (or none): no surrounding frame is visible at all -/
+theorem open_with_literal_values_sees_no_frame (ctx ctx' : Ctx) (s : Scope String) (n : String) (c : Cond)
+    (table : List Row) (us : List RV) (hc : closedList us = true) :
+    openStmt ctx s n c table us = openStmt ctx' s n c table us := by
+  apply open_sees_only_its_own_values
+  intro r hr
+  exact evalWith_closed _ _ _ (by simpa using (List.all_eq_true.mp hc) r hr)
+
 theorem open_on_stack_sees_only_its_own_values (ctx ctx' : Ctx) (st : Stack String) (n : String) (c : Cond)
-    (table : List Row) (us : List RV) :
+    (table : List Row) (us : List RV)
+    (h : ∀ r ∈ us, evalWith (evalPlaceholder ctx) r.value = evalWith (evalPlaceholder ctx') r.value) :
     openStmtS ctx st n c table us = openStmtS ctx' st n c table us := by
   induction st with
   | nil => rfl
   | cons b rest ih =>
     simp only [openStmtS]
-    rw [ih, open_sees_only_its_own_values ctx ctx']
+    rw [ih, open_sees_only_its_own_values ctx ctx' _ _ _ _ _ h]
 
-/-- any program — OPENs nested in EXECUTE … USING, function calls and SOURCE to any depth — runs the same under
-    every stack of surrounding frames: nothing an outer `EXECUTE … USING` binds reaches a cursor's statement -/
-theorem program_independent_of_outer_frames (table : List Row) (p : Prog) :
-    ∀ (ctx ctx' : Ctx) (st : Stack String), runP table ctx st p = runP table ctx' st p := by
+/-- `USING ?` hands on the first value of the SURROUNDING statement -/
+theorem using_placeholder_reads_surrounding_frame (ctx : Ctx) (h : Holder) :
+    evalPlaceholder (ctxForPrepared ctx (newReplaceValues [⟨.ph h, ""⟩])) (.pos 1) = evalPlaceholder ctx h := by
+  simp [ctxForPrepared, evalPlaceholder_push, newReplaceValues, newFrameFrom, frameIndex, evalWith]
+
+/-- which frames can be reached: the expressions of a frame are evaluated in the context BELOW it — replacing the
+    frame itself by any other changes nothing about the value of one of its expressions -/
+theorem own_frame_never_read_for_its_own_expressions (f g : Frame) (r r' : Bool) (below : Ctx) (h : Holder) (e : VExpr)
+    (hi : frameIndex f h = some e) :
+    evalPlaceholder (.push f r below) h = evalWith (evalPlaceholder below) e ∧
+    evalWith (evalPlaceholder below) e = evalWith (fun x => evalPlaceholder below x) e ∧
+    (frameIndex g h = some e → evalPlaceholder (.push g r' below) h = evalPlaceholder (.push f r below) h) := by
+  refine ⟨by simp [evalPlaceholder_push, hi], rfl, ?_⟩
+  intro hg
+  simp [evalPlaceholder_push, hi, hg]
+
+/-- a program depends on the context it is started in only through what that context answers for placeholders -/
+theorem program_depends_on_context_only_through_placeholder_values (table : List Row) (p : Prog) :
+    ∀ (ctx ctx' : Ctx) (st : Stack String), evalPlaceholder ctx = evalPlaceholder ctx' →
+      runP table ctx st p = runP table ctx' st p := by
   induction p with
-  | done => intro ctx ctx' st; rfl
+  | done => intro ctx ctx' st _; rfl
   | openC n c us rest ih =>
-    intro ctx ctx' st
+    intro ctx ctx' st he
     simp only [runP]
-    rw [open_on_stack_sees_only_its_own_values ctx ctx']
+    rw [open_on_stack_sees_only_its_own_values ctx ctx' _ _ _ _ _ (by intro r _; rw [he])]
     split
-    · rw [ih ctx ctx']
+    · rw [ih ctx ctx' _ he]
     · rfl
   | act o rest ih =>
-    intro ctx ctx' st
+    intro ctx ctx' st he
     simp only [runP]
     split
     · rfl
-    · rw [ih ctx ctx']
+    · rw [ih ctx ctx' _ he]
   | exec us body rest ihb ihr =>
-    intro ctx ctx' st
+    intro ctx ctx' st he
     simp only [runP]
-    rw [ihb (ctxForPrepared ctx (newReplaceValues us)) (ctxForPrepared ctx' (newReplaceValues us))]
+    rw [ihb (ctxForPrepared ctx (newReplaceValues us)) (ctxForPrepared ctx' (newReplaceValues us)) st
+      (by rw [evalPlaceholder_prepared, evalPlaceholder_prepared, he])]
     split
     · rfl
-    · rw [ihr ctx ctx']
+    · rw [ihr ctx ctx' _ he]
   | call body rest ihb ihr =>
-    intro ctx ctx' st
+    intro ctx ctx' st he
     simp only [runP]
-    rw [ihb ctx ctx']
+    rw [ihb ctx ctx' _ he]
     split
     · rfl
-    · rw [ihr ctx ctx']
+    · rw [ihr ctx ctx' _ he]
   | source body rest ihb ihr =>
-    intro ctx ctx' st
+    intro ctx ctx' st he
     simp only [runP]
-    rw [ihb ctx ctx']
+    rw [ihb ctx ctx' _ he]
     split
     · rfl
-    · rw [ihr ctx ctx']
+    · rw [ihr ctx ctx' _ he]
 
-/-- in particular an `EXECUTE … USING vs` around a program changes nothing about it -/
-theorem execute_using_is_transparent_for_opens (table : List Row) (ctx : Ctx) (st : Stack String) (us : List RV)
-    (body : Prog) :
-    runP table ctx st (.exec us body .done) = runP table ctx st (.source body .done) := by
-  simp only [runP]
-  rw [program_independent_of_outer_frames table body (ctxForPrepared ctx (newReplaceValues us)) ctx]
+/-- a program whose USING lists hold no placeholder — OPENs nested in EXECUTE … USING, function calls and SOURCE to any
+    depth — runs the same under every context: nothing an outer `EXECUTE … USING` binds reaches a cursor's statement -/
+theorem closed_program_independent_of_outer_frames (table : List Row) (p : Prog) :
+    ∀ (ctx ctx' : Ctx) (st : Stack String), p.closed = true → runP table ctx st p = runP table ctx' st p := by
+  induction p with
+  | done => intro ctx ctx' st _; rfl
+  | openC n c us rest ih =>
+    intro ctx ctx' st hc
+    simp only [Prog.closed, Bool.and_eq_true] at hc
+    simp only [runP]
+    rw [open_on_stack_sees_only_its_own_values ctx ctx' _ _ _ _ _
+      (by intro r hr; exact evalWith_closed _ _ _ (by simpa using (List.all_eq_true.mp hc.1) r hr))]
+    split
+    · rw [ih ctx ctx' _ hc.2]
+    · rfl
+  | act o rest ih =>
+    intro ctx ctx' st hc
+    simp only [Prog.closed] at hc
+    simp only [runP]
+    split
+    · rfl
+    · rw [ih ctx ctx' _ hc]
+  | exec us body rest ihb ihr =>
+    intro ctx ctx' st hc
+    simp only [Prog.closed, Bool.and_eq_true] at hc
+    simp only [runP]
+    rw [ihb (ctxForPrepared ctx (newReplaceValues us)) (ctxForPrepared ctx' (newReplaceValues us)) st hc.1.2]
+    split
+    · rfl
+    · rw [ihr ctx ctx' _ hc.2]
+  | call body rest ihb ihr =>
+    intro ctx ctx' st hc
+    simp only [Prog.closed, Bool.and_eq_true] at hc
+    simp only [runP]
+    rw [ihb ctx ctx' _ hc.1]
+    split
+    · rfl
+    · rw [ihr ctx ctx' _ hc.2]
+  | source body rest ihb ihr =>
+    intro ctx ctx' st hc
+    simp only [Prog.closed, Bool.and_eq_true] at hc
+    simp only [runP]
+    rw [ihb ctx ctx' _ hc.1]
+    split
+    · rfl
+    · rw [ihr ctx ctx' _ hc.2]
+
+/-! ## termination of the evaluation -/
+
+/-- every context built by ContextForPreparedStatement from a recorded one is recorded -/
+theorem prepared_contexts_are_recorded (ctx : Ctx) (f : Frame) (h : ctx.allRecorded = true) :
+    (ctxForPrepared ctx f).allRecorded = true := by
+  simp [ctxForPrepared, Ctx.allRecorded, h]
+
+/-- the evaluation in the shape of the Go code (`evalV`: Evaluate → evalPlaceholder → Evaluate …, `fuel` nested calls)
+    over recorded frames: the recorded context is strictly shorter than the reader's, so `size e + weight c` calls
+    suffice — it never runs out — and the answer is the structural evaluation the model uses -/
+theorem placeholder_eval_terminates (c : Ctx) (e : VExpr) (hr : c.allRecorded = true) (fuel : Nat)
+    (hf : e.size + c.weight ≤ fuel) :
+    evalV fuel c e ≠ .diverged ∧ evalV fuel c e = PV.ofOption (evalWith (evalPlaceholder c) e) := by
+  have h := evalV_recorded fuel c e hr hf
+  refine ⟨?_, h⟩
+  rw [h]
+  cases evalWith (evalPlaceholder c) e <;> simp [PV.ofOption]
+
+/-- more fuel never changes an answer that was reached -/
+theorem eval_fuel_monotone : ∀ (fuel : Nat) (c : Ctx) (e : VExpr), evalV fuel c e ≠ .diverged →
+    evalV (fuel + 1) c e = evalV fuel c e := by
+  intro fuel
+  induction fuel with
+  | zero => intro c e h; simp [evalV] at h
+  | succ fuel ih =>
+    intro c e h
+    cases e with
+    | lit n => simp [evalV]
+    | plus e k =>
+      simp only [evalV] at h ⊢
+      have hd : evalV fuel c e ≠ .diverged := by
+        intro hd; rw [hd] at h; exact h rfl
+      rw [ih c e hd]
+    | ph x =>
+      cases c with
+      | empty => simp [evalV]
+      | push f r below =>
+        simp only [evalV] at h ⊢
+        cases hi : frameIndex f x with
+        | none => rfl
+        | some e' =>
+          simp only [hi] at h ⊢
+          exact ih _ e' h
+
+/-- THE SHAPE BEFORE THE FIX (frames that do not record their context: the expression is evaluated in the reader's
+    own context): `EXECUTE pin USING ?` — reading ?{1} evaluates the first expression of the innermost frame, which is
+    ?{1}.  No fuel suffices, whatever lies below (Go: the stack grows until the runtime's fatal error). -/
+theorem old_lazy_evaluation_loops (below : Ctx) (fuel : Nat) :
+    evalV fuel (.push (newReplaceValues [⟨.ph (.pos 1), ""⟩]) false below) (.ph (.pos 1)) = .diverged := by
+  induction fuel with
+  | zero => rfl
+  | succ fuel ih =>
+    simp only [evalV, newReplaceValues, newFrameFrom, frameIndex] at ih ⊢
+    simpa using ih
+
+/-- … while the recorded frame of the same list reads the value of the surrounding statement -/
+theorem recorded_evaluation_of_the_same_list (k : Int) :
+    evalV 3 (.push (newReplaceValues [⟨.ph (.pos 1), ""⟩]) true (.push (newReplaceValues [⟨.lit k, ""⟩]) true .empty))
+      (.ph (.pos 1)) = .val k := by
+  simp [evalV, newReplaceValues, newFrameFrom, frameIndex]
 
 /-! ## OPEN without USING -/
 
@@ -202,7 +360,7 @@ theorem open_answers_ok_or_error (ctx : Ctx) (s : Scope String) (n : String) (c 
 
 theorem open_with_values_is_open_on_selected_rows (ctx : Ctx) (s : Scope String) (n : String) (c : Cond)
     (table : List Row) (us : List RV) (rows : List String)
-    (h : selectRows (ownLookup us) c table = some rows) :
+    (h : selectRows (ownLookup (evalPlaceholder ctx) us) c table = some rows) :
     openStmt ctx s n c table us = ((step s (.open n rows)).1, .res (step s (.open n rows)).2) := by
   rw [open_reads_own_lookup]
   simp only [step, h]
@@ -219,27 +377,36 @@ theorem selected_rows_spec (v : Holder → Int) (c : Cond) (table : List Row) :
     selectRows (fun h => some (v h)) c table = some ((table.filter (fun r => c.denote v r.1)).map Prod.snd) :=
   selectRows_total v c table
 
-/-- `?` number k reads the k-th value of the OPEN's own list (index Ordinal − 1) -/
+/-- `?` number k reads the k-th expression of the OPEN's own list (index Ordinal − 1), evaluated in the context of
+    the statement that contains the OPEN -/
 theorem positional_value_is_ordinal_minus_one (ctx : Ctx) (us : List RV) (i : Nat) :
-    evalPlaceholder (ctxForPrepared ctx (newReplaceValues us)) (.pos (i + 1)) = (us.map (·.value))[i]? := by
-  simp [evalPlaceholder, ctxValue, ctxForPrepared, newReplaceValues_values]
+    evalPlaceholder (ctxForPrepared ctx (newReplaceValues us)) (.pos (i + 1)) =
+      ((us.map (·.value))[i]?).bind (evalWith (evalPlaceholder ctx)) := by
+  simp [ctxForPrepared, evalPlaceholder_push, frameIndex, newReplaceValues_values]
 
 /-- `v AS name` twice in one list: the later entry is the one `:name` reads -/
 theorem named_value_last_entry_wins (ctx : Ctx) (a b : Int) (nm : String) (hn : nm.length > 0) :
-    evalPlaceholder (ctxForPrepared ctx (newReplaceValues [⟨a, nm⟩, ⟨b, nm⟩])) (.named nm) = some b := by
-  simp [evalPlaceholder, ctxValue, ctxForPrepared, newReplaceValues, newFrameFrom, hn, assoc]
+    evalPlaceholder (ctxForPrepared ctx (newReplaceValues [⟨.lit a, nm⟩, ⟨.lit b, nm⟩])) (.named nm) = some b := by
+  simp [ctxForPrepared, evalPlaceholder_push, frameIndex, newReplaceValues, newFrameFrom, hn, assoc, evalWith]
 
 /-! ## the regenerated code -/
 
 /-- ContextForPreparedStatement as it stands in processor.go: for EVERY context and EVERY frame (the empty one
-    included) the result is the context with the frame pushed -/
+    included) the result is the context with the frame pushed, and the frame RECORDS that context -/
 theorem gen_prepared_context_always_shadows (ctx : Ctx) (f : Frame) :
     interpCtxFn Gen.CursorPrepCtx.contextFn ctx f = some (ctxForPrepared ctx f) := by
-  simp [Gen.CursorPrepCtx.contextFn, interpCtxFn, interpCtxExpr, ctxForPrepared]
+  simp [Gen.CursorPrepCtx.contextFn, interpCtxFn, interpCtxFnFrom, interpCtxExpr, ctxForPrepared]
 
-/-- … it is the one-statement wrap, with the parameters the interpreter assumes -/
+/-- … it is the two-statement record-and-wrap, with the parameters the interpreter assumes -/
 theorem gen_prepared_context_is_plain_wrap :
     ctxFnIsPlainWrap Gen.CursorPrepCtx.contextFn = true ∧ Gen.CursorPrepCtx.contextFnParams = ["ctx", "values"] := by
+  decide
+
+/-- evalPlaceholder hands the value expression to Evaluate with the RECORDED context whenever there is one (always,
+    by the theorem above); the reader's own context is the fallback for a frame without record only -/
+theorem gen_placeholder_value_evaluated_in_recorded_context :
+    Gen.CursorPrepCtx.evalIn =
+      [("replace.Outer != nil", "replace.Outer | replace.Values[idx]"), ("", "ctx | replace.Values[idx]")] := by
   decide
 
 /-- the context is built at exactly two sites, each from the context of the enclosing statement and a frame made
@@ -279,6 +446,7 @@ theorem gen_eval_placeholder_skeleton :
        "else{",
          "idx = expr.Ordinal - 1",
          "if[len(replace.Values) <= idx]{", "return nil, NewStatementReplaceValueNotSpecifiedError(expr)", "}", "}",
+       "if[replace.Outer != nil]{", "return Evaluate(replace.Outer, scope, replace.Values[idx])", "}",
        "return Evaluate(ctx, scope, replace.Values[idx])"] := by
   decide
 
@@ -292,35 +460,66 @@ theorem gen_new_replace_values_skeleton :
        "return &ReplaceValues{Values: values, Names: names}"] := by
   decide
 
-/-! ## the variant that wraps only a non-empty list (seeded change C16-m25) -/
+/-! ## variants that are not the model's function -/
 
-/-- `if len(values.Values) < 1 { return ctx }` in front of the wrap -/
+/-- `if len(values.Values) < 1 { return ctx }` in front (seeded change C16-m25) -/
 def conditionalWrap : List CtxStmt :=
-  [.ifRet .valuesEmpty .ctx, .ret (.withValue "ctx" "StatementReplaceValuesContextKey" "values")]
+  [.ifRet .valuesEmpty .ctx, .setOuter "ctx", .ret (.withValue "ctx" "StatementReplaceValuesContextKey" "values")]
+
+def outerTwo : Ctx := ctxForPrepared .empty (newReplaceValues [⟨2, ""⟩])
 
 /-- … is a different function: under a surrounding `EXECUTE … USING 2` an OPEN without USING would read 2 -/
 theorem conditional_wrap_leaks_outer_values :
-    interpCtxFn conditionalWrap [newReplaceValues [⟨2, ""⟩]] (newReplaceValues []) = some [newReplaceValues [⟨2, ""⟩]] ∧
-    evalPlaceholder [newReplaceValues [⟨2, ""⟩]] (.pos 1) = some 2 ∧
-    evalPlaceholder (ctxForPrepared [newReplaceValues [⟨2, ""⟩]] (newReplaceValues [])) (.pos 1) = none ∧
+    interpCtxFn conditionalWrap outerTwo (newReplaceValues []) = some outerTwo ∧
+    evalPlaceholder outerTwo (.pos 1) = some 2 ∧
+    evalPlaceholder (ctxForPrepared outerTwo (newReplaceValues [])) (.pos 1) = none ∧
     ¬ (∀ ctx f, interpCtxFn conditionalWrap ctx f = some (ctxForPrepared ctx f)) := by
   refine ⟨by decide, by decide, by decide, ?_⟩
   intro h
-  have := h [] (newReplaceValues [])
+  have := h .empty (newReplaceValues [])
   revert this
   decide
+
+/-- the wrap without `values.Outer = ctx` (the code before 6dd3cc3, reverse seed C19-r118) -/
+def unrecordedWrap : List CtxStmt := [.ret (.withValue "ctx" "StatementReplaceValuesContextKey" "values")]
+
+/-- … pushes a frame that does not record its context — the shape of `old_lazy_evaluation_loops` -/
+theorem unrecorded_wrap_is_not_the_model (ctx : Ctx) (f : Frame) :
+    interpCtxFn unrecordedWrap ctx f = some (.push f false ctx) ∧
+    interpCtxFn unrecordedWrap ctx f ≠ some (ctxForPrepared ctx f) := by
+  simp [unrecordedWrap, interpCtxFn, interpCtxFnFrom, interpCtxExpr, ctxForPrepared]
 
 /-! ## non-vacuity -/
 
 def tbl : List Row := [(1, "r1"), (2, "r2"), (3, "r3"), (4, "r4")]
 def sc : Scope String := [("CUR", .closed)]
 def pick : Cond := .gtH (.pos 1)
-def outer2 : Ctx := [newReplaceValues [⟨2, ""⟩]]
+def outer2 : Ctx := ctxForPrepared .empty (newReplaceValues [⟨2, ""⟩])
 
 -- open_sees_only_its_own_values / open_reads_own_lookup: with its own USING 1 inside EXECUTE … USING 2: rows above 1
 example : openStmt outer2 sc "cur" pick tbl [⟨1, ""⟩] = ([("CUR", .opened ["r2", "r3", "r4"] (-1) false)], .res .ok) := by rfl
-example : openStmt [] sc "cur" pick tbl [⟨1, ""⟩] = openStmt outer2 sc "cur" pick tbl [⟨1, ""⟩] :=
-  open_sees_only_its_own_values _ _ _ _ _ _ _
+example : openStmt .empty sc "cur" pick tbl [⟨1, ""⟩] = openStmt outer2 sc "cur" pick tbl [⟨1, ""⟩] :=
+  open_with_literal_values_sees_no_frame _ _ _ _ _ _ _ rfl
+-- with `USING ?` the OPEN inside EXECUTE … USING 2 reads 2 (rows above 2); with `USING ? + 1`, 3; at top level it is refused
+example : openStmt outer2 sc "cur" pick tbl [⟨.ph (.pos 1), ""⟩] = ([("CUR", .opened ["r3", "r4"] (-1) false)], .res .ok) := by rfl
+example : openStmt outer2 sc "cur" pick tbl [⟨.plus (.ph (.pos 1)) 1, ""⟩] = ([("CUR", .opened ["r4"] (-1) false)], .res .ok) := by rfl
+example : openStmt .empty sc "cur" pick tbl [⟨.ph (.pos 1), ""⟩] = (sc, .notSpecified) := by rfl
+-- the two reproducers of F118 in the model: EXECUTE pout USING 5 { EXECUTE pin USING ? { read ?{1} } } reads 5
+example : evalPlaceholder (ctxForPrepared (ctxForPrepared .empty (newReplaceValues [⟨5, ""⟩])) (newReplaceValues [⟨.ph (.pos 1), ""⟩])) (.pos 1) = some 5 := by rfl
+example : runP tbl .empty [sc] (.exec [⟨1, ""⟩] (.openC "cur" (.and (.gtH (.pos 1)) (.ltH (.pos 2))) [⟨.ph (.pos 1), ""⟩, ⟨4, ""⟩] (.act (.count "cur") .done)) .done)
+    = ([[("CUR", .opened ["r2", "r3"] (-1) false)]], [.res .ok, .res (.int 2)], false) := by rfl
+-- placeholder_eval_terminates: premises satisfiable, the bound is met
+example : outer2.allRecorded = true ∧ (VExpr.ph (.pos 1)).size + outer2.weight ≤ 2 ∧ evalV 2 outer2 (.ph (.pos 1)) = .val 2 := by decide
+-- eval_fuel_monotone: premise satisfiable
+example : evalV 2 outer2 (.ph (.pos 1)) ≠ .diverged := by decide
+-- program_depends_on_context_only_through_placeholder_values: two different contexts that answer alike
+example : evalPlaceholder (ctxForPrepared .empty (newReplaceValues [⟨2, ""⟩])) = evalPlaceholder (ctxForPrepared outer2 (newReplaceValues [⟨.ph (.pos 1), ""⟩])) := by
+  funext h; cases h with
+  | pos o => match o with
+    | 0 => rfl
+    | 1 => rfl
+    | _ + 2 => rfl
+  | named n => rfl
 -- open_without_values_refused_iff_placeholder: inside EXECUTE … USING 2, OPEN without USING is refused, cursor closed
 example : openStmt outer2 sc "cur" pick tbl [] = (sc, .notSpecified) := by rfl
 example : reachesPlaceholder pick tbl = true := by rfl
@@ -328,18 +527,18 @@ example : reachesPlaceholder pick tbl = true := by rfl
 example : openStmt outer2 sc "cur" pick [] [] = ([("CUR", .opened [] (-1) false)], .res .ok) := by rfl
 example : reachesPlaceholder pick [] = false := by rfl
 -- AND: the second placeholder is reached only by rows that pass the first comparison
-example : openStmt [] sc "cur" (.and (.gtH (.pos 1)) (.ltH (.pos 2))) tbl [⟨9, ""⟩] = ([("CUR", .opened [] (-1) false)], .res .ok) := by rfl
-example : openStmt [] sc "cur" (.and (.gtH (.pos 1)) (.ltH (.pos 2))) tbl [⟨3, ""⟩] = (sc, .notSpecified) := by rfl
+example : openStmt .empty sc "cur" (.and (.gtH (.pos 1)) (.ltH (.pos 2))) tbl [⟨9, ""⟩] = ([("CUR", .opened [] (-1) false)], .res .ok) := by rfl
+example : openStmt .empty sc "cur" (.and (.gtH (.pos 1)) (.ltH (.pos 2))) tbl [⟨3, ""⟩] = (sc, .notSpecified) := by rfl
 -- open_without_values_no_placeholder
 example : openStmt outer2 sc "cur" (.gtC 2) tbl [] = ([("CUR", .opened ["r3", "r4"] (-1) false)], .res .ok) := by rfl
 -- failed_open_leaves_cursor_closed / _stack_unchanged: premises are satisfiable
 example : (openStmt outer2 sc "cur" pick tbl []).2.isErr = true := by rfl
 example : (openStmtS outer2 [[], sc] "cur" pick tbl []).2.isErr = true ∧ (openStmtS outer2 [[], sc] "cur" pick tbl []).1 = [[], sc] := ⟨rfl, rfl⟩
 -- open_answers_ok_or_error: both sides occur
-example : (openStmt [] sc "cur" pick tbl [⟨0, ""⟩]).2.isErr = false := by rfl
+example : (openStmt .empty sc "cur" pick tbl [⟨0, ""⟩]).2.isErr = false := by rfl
 -- open_with_values_is_open_on_selected_rows: premise satisfiable; also "already open" goes through `step`
-example : selectRows (ownLookup [⟨2, ""⟩]) pick tbl = some ["r3", "r4"] := by rfl
-example : (openStmt [] [("CUR", .opened ["x"] 0 true)] "cur" pick tbl [⟨2, ""⟩]).2.isErr = true := by rfl
+example : selectRows (ownLookup (evalPlaceholder .empty) [⟨2, ""⟩]) pick tbl = some ["r3", "r4"] := by rfl
+example : (openStmt .empty [("CUR", .opened ["x"] 0 true)] "cur" pick tbl [⟨2, ""⟩]).2.isErr = true := by rfl
 -- selected_rows_spec
 example : selectRows (fun h => some ((fun _ => (2 : Int)) h)) pick tbl = some ["r3", "r4"] := by rfl
 -- positional / named values
@@ -347,15 +546,15 @@ example : evalPlaceholder (ctxForPrepared outer2 (newReplaceValues [⟨7, ""⟩,
 example : evalPlaceholder (ctxForPrepared outer2 (newReplaceValues [⟨7, ""⟩, ⟨8, "lo"⟩])) (.named "lo") = some 8 := by rfl
 example : evalPlaceholder (ctxForPrepared outer2 (newReplaceValues [⟨7, ""⟩, ⟨8, "lo"⟩])) (.named "hi") = none := by rfl
 example : evalPlaceholder (ctxForPrepared outer2 (newReplaceValues [⟨7, "lo"⟩, ⟨8, "lo"⟩])) (.named "lo") = some 8 := by rfl
--- program_independent_of_outer_frames: EXECUTE … USING 2 { call { OPEN cur } } is refused; with USING 3 on the OPEN it
+-- closed_program_independent_of_outer_frames: EXECUTE … USING 2 { call { OPEN cur } } is refused; with USING 3 on the OPEN it
 -- opens on the rows above 3 although two frames (2, then 0) surround it
-example : runP tbl [] [sc] (.exec [⟨2, ""⟩] (.call (.openC "cur" pick [] .done) .done) .done) = ([sc], [.notSpecified], true) := by rfl
-example : runP tbl [] [sc] (.exec [⟨2, ""⟩] (.exec [⟨0, ""⟩] (.source (.openC "cur" pick [⟨3, ""⟩] (.act (.fetch "cur" .next) .done)) .done) .done) .done)
+example : runP tbl .empty [sc] (.exec [⟨2, ""⟩] (.call (.openC "cur" pick [] .done) .done) .done) = ([sc], [.notSpecified], true) := by rfl
+example : runP tbl .empty [sc] (.exec [⟨2, ""⟩] (.exec [⟨0, ""⟩] (.source (.openC "cur" pick [⟨3, ""⟩] (.act (.fetch "cur" .next) .done)) .done) .done) .done)
     = ([[("CUR", .opened ["r4"] 0 true)]], [.res .ok, .res (.row "r4")], false) := by rfl
--- execute_using_is_transparent_for_opens
-example : runP tbl [] [sc] (.exec [⟨2, ""⟩] (.openC "cur" (.gtC 3) [] .done) .done) = ([[("CUR", .opened ["r4"] (-1) false)]], [.res .ok], false) := by rfl
+-- an EXECUTE … USING around an OPEN of a statement without placeholder changes nothing
+example : runP tbl .empty [sc] (.exec [⟨2, ""⟩] (.openC "cur" (.gtC 3) [] .done) .done) = ([[("CUR", .opened ["r4"] (-1) false)]], [.res .ok], false) := by rfl
 -- gen_prepared_context_always_shadows: an empty frame on top of a non-empty one hides it
-example : interpCtxFn Gen.CursorPrepCtx.contextFn outer2 (newReplaceValues []) = some (newReplaceValues [] :: outer2) :=
+example : interpCtxFn Gen.CursorPrepCtx.contextFn outer2 (newReplaceValues []) = some (.push (newReplaceValues []) true outer2) :=
   gen_prepared_context_always_shadows _ _
 
 end Csvq.C16Stmt
